@@ -26,7 +26,7 @@ CONSTANTS M,          \* items per free-list page
           MaxAlloc,   \* bound on allocations per sync
           MaxFreed,   \* bound on pages freed per sync
           MaxSyncs,
-          Drop,       \* guards switched off (mutants): "new-full-portion", "renumber-head"
+          Drop,       \* guards switched off (mutants): "new-full-portion", "renumber-head", "dirty-on-every-pop"
           AllSubsets  \* TRUE: every subset of the live pages may be freed; FALSE: the k smallest or the k largest ones
 
 Last(s) == s[Len(s)]
@@ -130,7 +130,10 @@ Finish(fl, bump, n, freed) ==
         bumps == n - Len(d.taken)
         bump1 == bump + bumps
         taken == d.taken \o [j \in 1..bumps |-> bump + j - 1]
-    IN IF d.fl.released = <<>> /\ Len(d.taken) = 0 /\ freed = <<>>
+       \* "No changes were made": `pop` is set by every pop / discard that takes an item (guard dirty-on-every-pop;
+       \* without it only when a whole head page is used up - then a sync that takes a few items and frees nothing
+       \* leaves the old list on disk, DiskMatchesMemory fails, and SyncTrace's list-rewritten rule is its trace form)
+    IN IF d.fl.released = <<>> /\ ("dirty-on-every-pop" \in Drop \/ Len(d.taken) = 0) /\ freed = <<>>
        THEN [fl |-> d.fl, bump |-> bump1, writes |-> <<>>, taken |-> taken, toPush |-> <<>>, newPages |-> <<>>, leftover |-> <<>>]
        ELSE LET toPush0 == freed \o d.fl.released      \* "append the released free list pages" (drained)
                 pre == Preallocate([d.fl EXCEPT !.released = <<>>], toPush0, bump1)
@@ -227,6 +230,14 @@ Decode(d, pn, fuel) ==
 DiskMatchesMemory ==
     LET head == IF fl.portions = <<>> THEN 0 ELSE Last(fl.portions).pn IN
     Decode(disk, head, MaxPage + 1) = fl.portions
+
+\* the design-level form of SyncTrace's list-rewritten rule: a sync that took an item from the old list leaves a
+\* list with another head page (the touched head is rewritten elsewhere or released)
+HeadMovesWhenTaken ==
+    last.none \/
+    LET oldHead == IF last.old.portions = <<>> THEN 0 ELSE Last(last.old.portions).pn
+        newHead == IF fl.portions = <<>> THEN 0 ELSE Last(fl.portions).pn
+    IN (Range(last.r.taken) \cap Entries(last.old) # {}) => newHead # oldHead
 
 \* every page number preallocate reserved was used by push_and_encode
 NoLeftoverPages == last.none \/ last.r.leftover = <<>>
